@@ -82,6 +82,8 @@ def run_cases(ctx, scen, props, name="cases", reps=5, check=None):
         for s in scen:
             f.write(json.dumps(s) + "\n")
     tr = os.path.join(ctx.work, name + ".ndjson")
+    if any(s["entry"] == "cli" for s in scen):
+        ctx.wtf()
     info = ctx.run_vh(["engine-scen", "-in", sf, "-out", tr, "-props", ",".join(props), "-reps", reps], timeout=3000)
     chk = ", ".join('"%s"' % p for p in (check or props))
     ok, rej = ctx.validate_traces(tr, "TraceSearch", TRACE_CFG % chk, max_rejects=8, timeout=600)
